@@ -58,17 +58,45 @@ theorem sem_final_table (r e : Int) :
     whatever would come later. -/
 theorem sem_trywait_retry (n : Nat) (r e : Int) (rest : List (Int × Int))
     (h : ¬(r = -1 ∧ e = EINTR)) :
-    semTrywait (List.replicate n (-1, EINTR) ++ (r, e) :: rest) = some (semFinal r e, n + 1) := by
-  induction n with
-  | zero => simp [semTrywait, h]
-  | succ n ih => simp [List.replicate_succ, semTrywait, ih]
+    semTrywait (List.replicate n (-1, EINTR) ++ (r, e) :: rest) = some (semFinal r e, n + 1) :=
+  retry_eintr semFinal n r e rest h
 
 /-- the loop never gives up on EINTR: a script of interruptions only never produces a result -/
 theorem sem_trywait_only_eintr (n : Nat) :
-    semTrywait (List.replicate n (-1, EINTR)) = none := by
-  induction n with
-  | zero => rfl
-  | succ n ih => simp [List.replicate_succ, semTrywait, ih]
+    semTrywait (List.replicate n (-1, EINTR)) = none := retry_only_eintr semFinal n
+
+/-- **`uv_sem_wait` returns only with a token.**  For every script of `sem_wait` answers: if
+    `uv_sem_wait` returns (does not abort, is not still looping), then the LAST `sem_wait` call it
+    made answered 0 (a token was really taken), every earlier call was an EINTR interruption,
+    and no call was made after the successful one.  Hence, given `sem_wait`'s contract
+    (0 = one token consumed), no waiter gets through `uv_sem_wait` without a token. -/
+theorem sem_wait_returns_with_token (script : List (Int × Int)) (k : Nat)
+    (h : semWait script = some (.ret 0, k)) :
+    ∃ e rest, script = List.replicate (k - 1) (-1, EINTR) ++ (0, e) :: rest ∧ 0 < k := by
+  obtain ⟨r, e, rest, hs, hk, _, ho⟩ := retry_returns_last semWaitFinal script _ k h
+  by_cases hr : r = 0
+  · subst hr; exact ⟨e, rest, hs, hk⟩
+  · simp [semWaitFinal, hr] at ho
+
+/-- EINTR is retried by `uv_sem_wait`: `n` interruptions then success → returns after exactly
+    `n + 1` calls; `n` interruptions then any other failure → abort; interruptions only → never
+    returns. -/
+theorem sem_wait_retry (n : Nat) (r e : Int) (rest : List (Int × Int))
+    (h : ¬(r = -1 ∧ e = EINTR)) :
+    semWait (List.replicate n (-1, EINTR) ++ (r, e) :: rest)
+      = some (if r ≠ 0 then .abort else .ret 0, n + 1) ∧
+    semWait (List.replicate n (-1, EINTR)) = none :=
+  ⟨retry_eintr semWaitFinal n r e rest h, retry_only_eintr semWaitFinal n⟩
+
+/-- same loop in `uv_sleep` (core.c): it returns only after a `nanosleep` call answered 0, i.e.
+    after the (remaining) time really elapsed -/
+theorem sleep_returns_after_full_sleep (script : List (Int × Int)) (k : Nat)
+    (h : sleepLoop script = some (.ret 0, k)) :
+    ∃ e rest, script = List.replicate (k - 1) (-1, EINTR) ++ (0, e) :: rest ∧ 0 < k :=
+  sem_wait_returns_with_token script k h
+
+example : semWait [(-1, 4), (-1, 4), (0, 0), (-1, 4)] = some (.ret 0, 3) ∧
+    semWait [(-1, 4)] = none ∧ semWait [(-1, 4), (-1, 22)] = some (.abort, 2) := by decide
 
 /-- "`uv_sem_trywait` returns `UV_EAGAIN` at zero", *given* `sem_trywait`'s contract (0 when a
     permit was taken; -1/EAGAIN when the count is zero; -1/EINTR when interrupted): after any
